@@ -9,7 +9,7 @@ use std::hash::{Hash, Hasher};
 
 const ITER_OPS: &[&str] = &[
   "drop", "forget", "drain", "splice", "drain_filter", "into_iter", "next", "next_back", "size_hint",
-  "len", "as_slice", "clone_iter", "nth", "nth_back", "count",
+  "len", "as_slice", "clone_iter", "nth", "nth_back", "count", "iter_views", "clone_from_iter",
 ];
 
 /// outer None: not handled here
@@ -132,6 +132,20 @@ fn iter_op(c: &mut Ctx, t: &[&str]) -> Option<Out> {
     },
     "as_slice" => match &c.sh[i] {
       Sh::Into(mid) => Out::List(mid.iter().copied().collect()),
+      _ => return None,
+    },
+    "clone_from_iter" => {
+      let j = c.idx(t[2])?;
+      let Sh::Into(mid) = &c.sh[j] else { return None };
+      let copy = mid.clone();
+      match &c.sh[i] {
+        Sh::Into(_) => c.sh[i] = Sh::Into(copy),
+        _ => return None,
+      }
+      Out::Unit
+    }
+    "iter_views" => match &c.sh[i] {
+      Sh::Into(_) => Out::Unit,
       _ => return None,
     },
     "clone_iter" => {
